@@ -443,7 +443,7 @@ def _u1_regex(run):
 def _gen_terms(run):
     """TLC enumerates construction programs of depth <= 2 (MC_Terms); quick: a seeded residue class."""
     path = os.path.join(run.workdir, "terms_scen.ndjson")
-    stride = 40 if run.tier == "thorough" else 503
+    stride = 40 if run.tier == "thorough" else 251
     run.generate("MC_Terms", "MC_Terms.cfg", path, timeout=1800,
                  env={"VH_STRIDE": str(stride), "VH_OFFSET": str(run.seed % stride)},
                  note="construction programs of depth <= 2 over 9 atoms (1 026 312 in all), every %d-th" % stride)
